@@ -265,6 +265,16 @@ pub fn finish(
     Ok(code)
 }
 
+/// What one case of an in-process check reports back from its worker process.
+#[derive(Clone, Debug, Default, Serialize, Deserialize)]
+pub struct CaseOut {
+    pub viol: Option<Violation>,
+    pub tally: BTreeMap<String, u64>,
+    /// keys for counting distinct non-trivial cases
+    pub keys: Vec<String>,
+    pub sample: Option<Value>,
+}
+
 /// Count occurrences of string tags.
 #[derive(Default, Clone, Debug)]
 pub struct Tally(pub BTreeMap<String, u64>);
@@ -286,5 +296,73 @@ impl Tally {
     }
     pub fn get(&self, k: &str) -> u64 {
         self.0.get(k).copied().unwrap_or(0)
+    }
+}
+
+/// Watches worker threads of in-process checks: a case that does not come back within the
+/// limit is reported as a violation (with its replay file) and ends the process. Wall-clock
+/// time is consulted here only, and never decides a passing run.
+pub struct HangWatch {
+    slots: std::sync::Arc<std::sync::Mutex<Vec<Option<(std::time::Instant, u64, Value, String)>>>>,
+    stop: std::sync::Arc<std::sync::atomic::AtomicBool>,
+}
+
+impl HangWatch {
+    pub fn start(cfg: &Cfg, property: &'static str, class: &'static str, secs: u64) -> Self {
+        let slots: std::sync::Arc<std::sync::Mutex<Vec<Option<(std::time::Instant, u64, Value, String)>>>> = std::sync::Arc::new(std::sync::Mutex::new(vec![None; cfg.workers.max(1) + 1]));
+        let stop = std::sync::Arc::new(std::sync::atomic::AtomicBool::new(false));
+        let (s2, st2, cfg2) = (slots.clone(), stop.clone(), cfg.clone());
+        std::thread::spawn(move || loop {
+            std::thread::sleep(std::time::Duration::from_millis(500));
+            if st2.load(std::sync::atomic::Ordering::SeqCst) {
+                return;
+            }
+            let hung = s2
+                .lock()
+                .unwrap()
+                .iter()
+                .flatten()
+                .find(|(t, ..)| t.elapsed().as_secs() >= secs)
+                .cloned();
+            if let Some((_, run, case, detail)) = hung {
+                let v = Violation {
+                    property: property.into(),
+                    class: class.into(),
+                    detail: detail.clone(),
+                    fingerprint: BTreeMap::new(),
+                    case,
+                    seed: cfg2.seed,
+                    run,
+                    minimised_steps: 0,
+                };
+                match write_replay(&cfg2, &v) {
+                    Ok(p) => println!(
+                        "VIOLATION property={} replay={} class={} detail={}",
+                        property,
+                        p.display(),
+                        class,
+                        detail
+                    ),
+                    Err(e) => eprintln!("HARNESS-ERROR: {}", e.0),
+                }
+                std::process::exit(1);
+            }
+        });
+        HangWatch { slots, stop }
+    }
+    pub fn enter(&self, worker: usize, run: u64, case: impl FnOnce() -> Value, detail: &str) {
+        let mut s = self.slots.lock().unwrap();
+        if worker < s.len() {
+            s[worker] = Some((std::time::Instant::now(), run, case(), detail.to_string()));
+        }
+    }
+    pub fn leave(&self, worker: usize) {
+        let mut s = self.slots.lock().unwrap();
+        if worker < s.len() {
+            s[worker] = None;
+        }
+    }
+    pub fn stop(&self) {
+        self.stop.store(true, std::sync::atomic::Ordering::SeqCst);
     }
 }
